@@ -363,7 +363,7 @@ def scripted(ctx, objdir):
     rng = ctx.rng
     impl = Impl(ctx, objdir)
     cases = [dict(w) for w in WITNESSES]
-    n = ctx.n(200, 2000)
+    n = ctx.n(200, 1700)
     for i in range(n):
         cases.append(gen_case(rng))
     for k in cases:
